@@ -178,8 +178,24 @@ void h_set_flow_def(void)
     VP_BUILD();
     VIN(uint8_t, nd_dict); VIN(uint16_t, nd_id);
     struct uref *def = vs_make_uref((nd_dict & 1) != 0, nd_id, 0); VASSUME(def != NULL);
+#if VP_HAS_OUTPUT
+    struct uref *old_def = VP_S(upipe)->flow_def;
+#endif
     int ret = upipe_set_flow_def(upipe, def);
     VPOST(post_set_flow_def(upipe, ret));
+#if VP_HAS_OUTPUT
+    /* C20, flow definition as an option pair: the getter reports what the pipe now announces downstream, twice the same,
+     * and touches nothing; after an accepted setter that is (a copy of) what was set, after a rejected one the previous value */
+    { struct uref *g1 = (struct uref *)1, *g2 = (struct uref *)1; int setdef0 = gs_out_setdef, in0 = gs_out_inputs, live0 = gs_uref_live;
+      int q1 = upipe_get_flow_def(upipe, &g1), q2 = upipe_get_flow_def(upipe, &g2);
+      VPOST(q1 == UBASE_ERR_NONE && q2 == UBASE_ERR_NONE && g1 == g2 && g1 == VP_S(upipe)->flow_def);
+      VPOST(gs_out_setdef == setdef0 && gs_out_inputs == in0 && gs_uref_live == live0 && spec_inv_out(upipe));
+#ifndef VP_DEF_NOT_STORED_VERBATIM
+      VPOST(ret != UBASE_ERR_NONE || !(nd_dict & 1) || (g1 != NULL && g1 != def && vs_def_id(g1) == nd_id));
+      VPOST(ret == UBASE_ERR_NONE || g1 == old_def);
+#endif
+    }
+#endif
     VCANARY();
 }
 #if VP_HAS_OUTPUT
@@ -191,6 +207,11 @@ void h_set_output(void)
     int ret = upipe_set_output(upipe, out);
     /* a newly connected output has accepted nothing yet (the stub is one object standing for any output) */
     VPOST(post_set_output(upipe, out, ret));
+    /* C20, output as an option pair: the getter returns what was set, twice, takes no reference and sends nothing */
+    { struct upipe *g1 = (struct upipe *)1, *g2 = (struct upipe *)1; int refs0 = (int)gs_out_rc.refcount;
+      int q1 = upipe_get_output(upipe, &g1), q2 = upipe_get_output(upipe, &g2);
+      VPOST(q1 == UBASE_ERR_NONE && q2 == UBASE_ERR_NONE && g1 == out && g2 == out);
+      VPOST((int)gs_out_rc.refcount == refs0 && post_set_output(upipe, out, ret)); }
     VCANARY();
 }
 #endif
